@@ -339,6 +339,31 @@ func init() {
 						}
 						judge(r, subject{desc: p.src, v: v.Coll[0], declNS: "System", decl: p.decl, identity: v.Coll[0], class: "system-value"}, universe.all)
 					}
+					// values computed FROM FHIR elements are System values, whatever the element's value is (zero, the empty
+					// string, false: the values an identity shortcut would hand back unconverted)
+					cenv := func() map[string]any {
+						return map[string]any{"fi0": fhir.Integer(0), "fi3": fhir.Integer(3), "fd0": &dtpb.Decimal{Value: "0.00"}, "fd25": &dtpb.Decimal{Value: "2.5"}, "fq0": &dtpb.Quantity{Value: &dtpb.Decimal{Value: "0"}, Code: fhir.Code("mg")},
+							"fs": fhir.String(""), "fs1": fhir.String("a"), "fb0": fhir.Boolean(false), "fu0": &dtpb.UnsignedInt{Value: 0}, "fp1": &dtpb.PositiveInt{Value: 1}}
+					}
+					for _, p := range []struct{ src, decl string }{
+						{"-%fi0", "Integer"}, {"-%fi3", "Integer"}, {"-%fd0", "Decimal"}, {"-%fd25", "Decimal"}, {"-%fq0", "Quantity"}, {"-%fu0", "Integer"}, {"-(-%fi0)", "Integer"},
+						{"%fi0 + 0", "Integer"}, {"%fi0 * 1", "Integer"}, {"%fi3 - 0", "Integer"}, {"%fp1 * 1", "Integer"}, {"%fd0 + 0", "Decimal"}, {"%fd25 * 1", "Decimal"}, {"%fi3 / 1", "Decimal"}, {"%fi0 div 1", "Integer"}, {"%fi0 mod 1", "Integer"},
+						{"%fi0.abs()", "Integer"}, {"%fd0.abs()", "Decimal"}, {"%fi3.abs()", "Integer"}, {"%fd25.round()", "Decimal"}, {"%fd0.truncate()", "Integer"}, {"%fd25.floor()", "Integer"}, {"%fd25.ceiling()", "Integer"},
+						{"%fs & ''", "String"}, {"%fs1 & ''", "String"}, {"%fs1.upper()", "String"}, {"%fs1.substring(0)", "String"}, {"%fs1.replace('z', 'y')", "String"}, {"%fi0.toString()", "String"},
+						{"%fb0.not()", "Boolean"}, {"%fb0 or false", "Boolean"}, {"%fb0 and true", "Boolean"}, {"%fi0.toInteger()", "Integer"}, {"%fd0.toDecimal()", "Decimal"}, {"%fs1.toString()", "String"}, {"%fb0.toBoolean()", "Boolean"},
+					} {
+						v := lib.Run(p.src, nil, cenv())
+						r.Eval()
+						if !v.OK() || len(v.Coll) != 1 {
+							r.Fail("computed-from-element|does-not-evaluate", core.W{"src": p.src, "got": v.String()})
+							continue
+						}
+						if _, ok := v.Coll[0].(system.Any); !ok {
+							r.Fail("computed-from-element|not-a-system-value", core.W{"src": p.src, "got": v.String()})
+							continue
+						}
+						judge(r, subject{desc: p.src, v: v.Coll[0], declNS: "System", decl: p.decl, identity: v.Coll[0], class: "computed-from-element"}, universe.all)
+					}
 					// this sub-space runs first in a fresh worker process: FHIR elements whose type name also exists in
 					// the System namespace (Quantity and its specialisations) are judged right after the System values,
 					// so that state shared between the namespaces (seeded change C12-m1) shows in this order too
